@@ -266,7 +266,11 @@ func (e *Evaluator) evalComponentStmt(node *ast.ComponentStmt, env *object.Env) 
 				return val
 			}
 
-			newEnv.Set(key, val)
+			// an argument belongs to the component's own scope, it must
+			// not clash with a variable of the caller that has another type
+			if err := newEnv.Define(key, val); err != nil {
+				return e.newError(node, "%s", err.Error())
+			}
 		}
 	}
 
